@@ -3,6 +3,7 @@ import SynapModel.Drv.Data
 import SynapModel.Drv.Train
 import SynapModel.Drv.Modules
 import SynapModel.Drv.Optim
+import SynapModel.Drv.OptimStore
 import SynapModel.Drv.Layers
 import SynapModel.Drv.Tensor
 import SynapModel.Drv.Init
@@ -22,6 +23,7 @@ open Synap
 structure State where
   mods : Modules.World := Modules.World.empty
   opt : Drv.Optim.St := .none
+  optstore : Drv.OptimStore.St := .none
   bn : Drv.Layers.St := {}
   t : Drv.Tensor.St := {}
   tr : Drv.Train.St := {}
@@ -35,6 +37,7 @@ def step (st : State) (line : String) : State × String :=
   | "train" :: rest => let (w, o) := Drv.Train.runS st.tr rest; ({ st with tr := w }, o)
   | "mod" :: rest => let (w, o) := Drv.Modules.run st.mods rest; ({ st with mods := w }, o)
   | "opt" :: rest => let (w, o) := Drv.Optim.run st.opt rest; ({ st with opt := w }, o)
+  | "optstore" :: rest => let (w, o) := Drv.OptimStore.run st.optstore rest; ({ st with optstore := w }, o)
   | "bn" :: rest => let (w, o) := Drv.Layers.run st.bn rest; ({ st with bn := w }, o)
   | "t" :: rest => let (w, o) := Drv.Tensor.run st.t rest; ({ st with t := w }, o)
   | "init" :: rest => (st, Drv.Init.run rest)
